@@ -462,6 +462,38 @@ func (v *Verifier) Discharge(results []*FuncResult, par int) {
 	}
 	close(ch)
 	wg.Wait()
+	// Second chance for obligations that timed out or came back unknown (not for
+	// refuted ones): the machine may have been busy. They are retried two at a time
+	// with three times the budget.
+	var retry []*Obligation
+	for _, o := range all {
+		if o.Kind != "vacuity" && o.Res.Status != "unsat" && o.Res.Status != "sat" {
+			retry = append(retry, o)
+		}
+	}
+	if len(retry) > 0 && len(retry) <= 40 {
+		save := v.Solver.Timeout
+		v.Solver.Timeout = 3 * save
+		ch2 := make(chan *Obligation)
+		var wg2 sync.WaitGroup
+		for i := 0; i < 2; i++ {
+			wg2.Add(1)
+			go func() {
+				defer wg2.Done()
+				for o := range ch2 {
+					first := o.Res
+					o.Solve(v.Solver)
+					o.Res.Tried = append(append([]string{"first-attempt:"}, first.Tried...), o.Res.Tried...)
+				}
+			}()
+		}
+		for _, o := range retry {
+			ch2 <- o
+		}
+		close(ch2)
+		wg2.Wait()
+		v.Solver.Timeout = save
+	}
 }
 
 func (o *Obligation) Query() string {
